@@ -2,7 +2,7 @@
 """The per-property checks.  Each returns a result dict; finish() prints KNOWN-FINDING / VIOLATION
 lines, writes the evidence file and computes the exit code."""
 import os, sys, json, time, collections
-import vlib, programs
+import vlib, programs, level2
 from vlib import InfraError, log, OUT, SPEC
 
 REGISTRY = {}
@@ -1091,3 +1091,117 @@ def replay_file(path):
         return 1
     print('the recorded execution is accepted by the specification on the current tree (not reproduced)')
     return 0
+
+
+# ------------------------------------------------------------------------------------------------
+# Level 2 (B1 conformance + B4 learnt orders + M model checking + B3 counterexample replay) for lock properties
+# ------------------------------------------------------------------------------------------------
+def add_level2(res, prop, tier, seed, classes, group, want, b2_reject):
+    """b2_reject(cls, execution, program_line) -> True if the real execution violates the property (decided by the
+    property's trace specification).  A model counterexample counts only if the real code follows it into a violation."""
+    workdir = os.path.join(OUT, 'work', prop)
+    os.makedirs(workdir, exist_ok=True)
+    cov = res['coverage']
+    l2 = {}
+    notes = res.setdefault('notes', [])
+    for cls in classes:
+        conf = level2.conformance(cls, tier, seed)
+        entry = {'conformance': {k: conf[k] for k in ('ok', 'streams', 'executions', 'events', 'states', 'rejected', 'mo_conflicts')},
+                 'memory_orders_learnt': conf['mo'], 'model_checking': []}
+        l2[cls] = entry
+        cov['states'] += conf['states']
+        cov['transitions'] += conf['transitions']
+        cov['traces_validated_against_impl'] += conf['executions']
+        if not conf['ok']:
+            first = conf['rejected'][0] if conf['rejected'] else {}
+            msg = ('MODEL-DRIFT property=%s class=%s: the real code no longer follows %s (program %s, event #%s %s); the exhaustive '
+                   'Level-2 result is void for this class, the verdict rests on the explored real executions'
+                   % (prop, cls, level2.CLS_MODULE[cls], first.get('program'), first.get('line'), first.get('event')))
+            log(msg)
+            notes.append(msg)
+            continue
+        for r in level2.model_check(cls, group, tier, conf['mo'], want):
+            entry['model_checking'].append({k: r[k] for k in ('tag', 'ok', 'violated', 'states', 'transitions', 'wall', 'invariants',
+                                                               'properties', 'consts')})
+            cov['states'] += r['states']
+            cov['transitions'] += r['transitions']
+            if not r['violated']:
+                continue
+            # B3: drive the real code along the counterexample
+            ex, prog = level2.replay_cex(cls, [tuple(x) for x in r['cex']], workdir)
+            if ex is None:
+                notes.append('model counterexample of %s/%s could not be turned into a program' % (cls, r['tag']))
+                continue
+            if b2_reject(cls, ex, prog):
+                res['violations'].append({
+                    'desc': '%s: TLC found %s violated in %s (%s, learnt memory orders); the real code follows the counterexample: '
+                            'program %s, schedule %s' % (prop, r['violated'], level2.CLS_MODULE[cls], r['tag'], prog, rle(ex.sched)),
+                    'signature': ['cls:' + cls, 'model:' + str(r['violated'])],
+                    'replay': {'kind': 'cex', 'cls': cls, 'program': prog, 'schedule': ex.sched, 'n': 4, 'prop': prop}})
+            else:
+                msg = ('MODEL-DRIFT property=%s class=%s: TLC reports %s violated in %s (%s) but the real code does not follow the '
+                       'counterexample into a violation' % (prop, cls, r['violated'], level2.CLS_MODULE[cls], r['tag']))
+                log(msg)
+                notes.append(msg)
+    cov['level2'] = l2
+    return res
+
+
+def b2_lock_abs(switches, fifo=False):
+    def f(cls, ex, prog):
+        workdir = os.path.join(OUT, 'work', 'b3')
+        os.makedirs(workdir, exist_ok=True)
+        h = vlib.api_history(ex, fifo=fifo)
+        cfg = lock_cfg(switches, workdir, 'b3')
+        rej, _ = vlib.validate_histories(os.path.join(SPEC, 'LockAbsTrace.tla'), cfg, [h], workdir, 'b3', nchunks=1)
+        return bool(rej)
+    return f
+
+
+def b2_hb(cls, ex, prog):
+    workdir = os.path.join(OUT, 'work', 'b3')
+    os.makedirs(workdir, exist_ok=True)
+    st, ok = vlib.hb_stream(ex, prog)
+    if not ok:
+        return False
+    rej, _ = vlib.validate_histories(os.path.join(SPEC, 'HBTrace.tla'), os.path.join(SPEC, 'cfg', 'HBTrace.cfg'), [[norm_hb(e) for e in st]],
+                                     workdir, 'b3', nchunks=1)
+    return bool(rej)
+
+
+def b2_nodes(cls, ex, prog):
+    workdir = os.path.join(OUT, 'work', 'b3')
+    os.makedirs(workdir, exist_ok=True)
+    rej, _ = vlib.validate_histories(os.path.join(SPEC, 'NodeTrace.tla'), os.path.join(SPEC, 'cfg', 'NodeTrace.cfg'), [vlib.node_stream(ex)],
+                                     workdir, 'b3', nchunks=1)
+    return bool(rej)
+
+
+L2_ASSUME = ['Level 2: TLC explores every interleaving of the atomic steps of <Cls>Impl for the stated thread counts and MaxOps calls '
+             'per thread; the specification is bound to the code by step-for-step trace validation (B1) of the explored real '
+             'executions and is instantiated with the memory orders learnt from them (B4); a model counterexample is reported '
+             'only when the real code follows it into a violation (B3)']
+
+
+def wrap_l2(prop, classes, group, want, b2):
+    """decorate a registered B2 check with the Level-2 part"""
+    inner = REGISTRY[prop]
+
+    def check(prop_, tier, seed):
+        res = inner(prop_, tier, seed)
+        add_level2(res, prop_, tier, seed, classes, group, want, b2)
+        res['assumptions'] = list(res.get('assumptions', [])) + L2_ASSUME
+        return res
+    REGISTRY[prop] = check
+
+
+ALL3 = ('pess', 'opt', 'mcs')
+wrap_l2('C01', ALL3, 'safety', {'Compat', 'WordOK'}, b2_lock_abs(['CkCompat']))
+wrap_l2('C02', ALL3, 'safety', {'NoDeadlock', 'FreeAtEnd', 'Termination'}, b2_lock_abs(['CkProgress']))
+wrap_l2('C03', ('opt',), 'safety', {'OptSound', 'OptComplete', 'SampleOK'}, b2_lock_abs(['CkOptimistic']))
+wrap_l2('C08', ALL3, 'hb', {'HB'}, b2_hb)
+wrap_l2('C09', ('opt',), 'safety', {'VerOK', 'WordOK'}, b2_lock_abs(['CkVersion', 'CkProgress']))
+wrap_l2('C10', ALL3, 'safety', {'Compat', 'WordOK'}, b2_lock_abs(['CkConvAtomic', 'CkCompat']))
+wrap_l2('C11', ('mcs',), 'safety', {'Fifo'}, b2_lock_abs(['CkFifo'], fifo=True))
+wrap_l2('C12', ('mcs',), 'safety', {'NodeSafe', 'GuardNodes', 'LiveBound', 'FreeAtEnd'}, b2_nodes)
+wrap_l2('C13', ('opt',), 'safety', {'PrepareOK', 'SampleOK', 'Compat'}, b2_lock_abs(['CkPrepare', 'CkOptimistic', 'CkGuards', 'CkProgress']))
